@@ -11,6 +11,7 @@ import puan.logic.plog as pg
 LEAF_IDS = ["a", "b", "c", "d", "e", "f", "g", "h", "i", "j", "k", "l"]
 ODD_IDS = ["", " ", "a,b", "x'y", "(", ")", "ä", "日本", "VARx", "0", "1", "A", "-1", "a b", "\n", "\\", '"q"', "ab", "bc"]
 INT16 = [(-32768, 32767), (0, 32767), (-32768, 0)]
+HUGE = [(0, 3_000_000_000), (-3_000_000_000, 5), (2_500_000_000, 2_500_000_003)]
 TWINS = [((0, 3), (1, 2)), ((-1, 3), (-2, 3)), ((-1, 1), (-2, 1)), ((0, 5), (2, 3))]
 
 KINDS = ["All", "Any", "AtLeast", "AtLeastS", "AtMost", "Xor", "ExactlyOne", "XNor", "Imply", "Not"]
@@ -24,6 +25,7 @@ class Opts:
         self.p_int = 0.3            # probability a leaf is integer valued
         self.p_big = 0.2            # ... of which int16 extreme
         self.p_const_leaf = 0.12    # ... of which constant (k,k)
+        self.p_huge = 0.0           # ... of which wider than 32 bits (only where the oracle is written in Python ints)
         self.p_explicit = 0.5
         self.p_share = 0.12         # identity sharing of an already built sub-model
         self.p_copy = 0.05          # equal copy of an already generated sub-recipe
@@ -51,6 +53,8 @@ def make_pool(rng, o):
                 b = (k, k)
             elif t < o.p_const_leaf + o.p_big:
                 b = rng.choice(INT16) if o.neg_bounds else (0, 32767)
+            elif t < o.p_const_leaf + o.p_big + o.p_huge:
+                b = rng.choice(HUGE)
             else:
                 lo = rng.randint(-3 if o.neg_bounds else 0, 2)
                 b = (lo, lo + rng.randint(1, 4))
@@ -235,9 +239,9 @@ def build(r, env=None, cc=None):
     elif k == "Any":
         m = pg.Any(*args, variable=vid)
     elif k == "AtLeast":
-        m = pg.AtLeast(r["value"], args, variable=vid, sign=r.get("sign"))
+        m = pg.AtLeast(r["value"], _as_iterable(args, r.get("iter")), variable=vid, sign=r.get("sign"))
     elif k == "AtMost":
-        m = pg.AtMost(r["value"], args, variable=vid)
+        m = pg.AtMost(r["value"], _as_iterable(args, r.get("iter")), variable=vid)
     elif k == "Xor":
         m = pg.Xor(*args, variable=vid)
     elif k == "ExactlyOne":
@@ -263,6 +267,19 @@ def build(r, env=None, cc=None):
     if r.get("label") is not None:
         env[r["label"]] = m
     return m
+
+
+def _as_iterable(args, how):
+    """the propositions of AtLeast/AtMost may arrive in any iterable, also a one-shot one"""
+    if how == "gen":
+        return (a for a in args)
+    if how == "map":
+        return map(lambda a: a, args)
+    if how == "tuple":
+        return tuple(args)
+    if how == "iter":
+        return iter(args)
+    return args
 
 
 def fresh(r):
